@@ -78,32 +78,6 @@ def make_sampler(world, case):
     return ParticleGibbsTreeSampler(world["kernel"], world["rng"], num_particles=case["N"], resample_threshold=case["thr"])
 
 
-class _ResampleCounter:
-    def __init__(self):
-        from phyclone.smc.samplers.conditional import ConditionalSMCSampler
-
-        self.cls = ConditionalSMCSampler
-        self.count = 0
-
-    def __enter__(self):
-        orig = self.cls._resample_swarm
-        me = self
-
-        def wrapped(s):
-            before = s.swarm
-            r = orig(s)
-            if s.swarm is not before:
-                me.count += 1
-            return r
-
-        self.orig = orig
-        self.cls._resample_swarm = wrapped
-        return self
-
-    def __exit__(self, *a):
-        self.cls._resample_swarm = self.orig
-
-
 def evaluate(case, leaf_budget=None):
     n = case["n"]
     out = case.get("outlier_prior", 0.0) > 0
@@ -116,9 +90,10 @@ def evaluate(case, leaf_budget=None):
     keys, mts, trees = exact.state_space(world, n, out, sib=case.get("sib"))
     try:
         pi, lp = exact.target(world, trees)
-        with _ResampleCounter() as rc:
+        with exact.ResampleMonitor() as rc:
             K, leaves = exact.transition_matrix(sampler.sample_tree, keys, trees, world["rng"], component, tags, leaf_budget)
             resamples = rc.count
+            rc.check()
             # metamorphic: same tree, different construction history / labels / sibling order -> same row
             rep = case.get("rep")
             if rep is not None and len(keys) > 0:
